@@ -573,7 +573,7 @@ func (e *Engine) Verify(con *Contract, quick bool) *FuncResult {
 		res.NInstr += len(b.Instrs)
 	}
 	vc := &VC{eng: e, q: NewQuery(), fn: fn, con: con, structSorts: map[string]Sort{}, memSorts: map[string]Sort{},
-		strLits: map[string]Term{}, oblCount: map[string]int{}, assumed: map[string]bool{}, havocked: map[string]bool{},
+		strLits: map[string]Term{}, oblCount: map[string]int{}, callAssertHit: map[*CallAssert]bool{}, assumed: map[string]bool{}, havocked: map[string]bool{},
 		usedContracts: map[string]bool{}, assumedFacts: map[string]bool{}, quick: quick}
 	if con.Mode == "bv" {
 		vc.bv = true
@@ -710,6 +710,12 @@ func (vc *VC) run() {
 	}
 	if con.HasAssigns {
 		vc.frameObligations(fr, env0, ex.st)
+	}
+	for _, ca := range con.CallAsserts {
+		if !vc.callAssertHit[ca] {
+			// a call-site assertion that matches no call checks nothing
+			vc.bindError(ca.Clause, "callsite assertion matches no call to "+ca.Callee+" in this function")
+		}
 	}
 	cov2 := &Obligation{Name: vc.eng.funcName(fn) + "/cover/exit", Kind: "cover", Func: vc.eng.funcName(fn),
 		Mark: vc.q.Mark(), Reach: ex.st.reach, Goal: False, ExpectSat: true, vc: vc}
